@@ -1,53 +1,54 @@
 ------------------------------ MODULE MCRealms ------------------------------
 (***************************************************************************************************************)
 (* Scenario model for C20: every history within a budget of steps over the alphabet                             *)
-(*   Sabotage(realm, how, focus path or its mate) | Pass / Forward | Eval | AllocNoise | NewRealm / NewContext  *)
-(*   / DropContext | SabotageAll                                                                               *)
-(* followed by one observation of every live realm.  The focus path is chosen in the initial state, so one TLC  *)
-(* run covers a whole set of catalogue paths.  Each finished history is emitted with the observations the       *)
-(* reference side of Realms.tla prescribes (HIST lines); the invariants of Realms.tla are checked in every      *)
-(* state of every history (the model gate).                                                                    *)
+(*   Sabotage(realm, how, focus path or its mate) | SabotageAll | Pass / Forward | Eval | AllocNoise |          *)
+(*   NewRealm / NewContext / DropContext                                                                       *)
+(* followed by one observation of every live realm.  A FAMILY fixes the budgets (how many steps of which kind), *)
+(* the set-up prefix and the set of focus paths; family and focus path are chosen in the initial state, so one  *)
+(* TLC run covers all families and all catalogue paths of a tier.  Each finished history is emitted with the    *)
+(* observations the reference side of Realms.tla prescribes (HIST lines); the invariants and the action         *)
+(* property of Realms.tla are checked in every state of every history (the model gate).                        *)
+(*                                                                                                             *)
+(* Fams is a set of records                                                                                    *)
+(*   [name, focus (set of paths), setup ("all4" | "lazy"), minSteps, maxSteps, maxSab, maxPass, maxEval,        *)
+(*    maxNoise, maxLife, maxSabAll, howsFocus, howsMate, kinds, allHolders, obsAll]                              *)
+(* supplied by the driver (tools/checks/C20.py generates the module that defines it; MCRealmsGate.tla is a      *)
+(* committed example).                                                                                         *)
 (***************************************************************************************************************)
 EXTENDS Realms, Json
 
-CONSTANTS FocusSet,        \* catalogue paths that may be the focus of a history
-          Setup,           \* "all4": 2 contexts x 2 realms exist up front; "lazy": only context 1 / realm 1
-          MinSteps, MaxSteps,
-          MaxSab, MaxPass, MaxEval, MaxNoise, MaxLife, MaxSabAll,
-          HowsFocus, HowsMate, KindsPass,
-          AllHolders,      \* TRUE: materialise every holder of the catalogue (needed by SabotageAll)
-          ObsAll,          \* TRUE: observations probe every materialised path, not only the slice
+CONSTANTS Fams,
           Emit             \* TRUE: print one HIST line per finished history
 
-VARIABLES focus, done
-mcvars == <<vars, focus, done>>
+VARIABLES focus, fam, done
+mcvars == <<vars, focus, fam, done>>
 
 Mate == PathInfo[focus].mate
-Slice == IF ObsAll THEN {p \in Paths : HolderOf(p) \in active} ELSE {focus, Mate}
-SabSet == {focus, Mate}
+Slice == IF fam.obsAll THEN {p \in Paths : HolderOf(p) \in active} ELSE {focus, Mate}
 Count(ops) == Cardinality({i \in DOMAIN hist : hist[i].op \in ops})
-SetupLen == IF Setup = "all4" THEN 4 ELSE 1
+SetupLen == IF fam.setup = "all4" THEN 4 ELSE 1
 Steps == Len(hist) - SetupLen
 
 HowOK(how, p) == how \in {"freeze", "proto"} => HolderOf(p) \in HolderHows
 
-(* holders the alphabet of a history with this focus can reach *)
-PathsNeeded(f) ==
-  LET sl == {f, PathInfo[f].mate}
-      withdeps == (sl \cup UNION {PathInfo[p].deps : p \in sl} \cup {PathInfo[p].via : p \in sl}) \ {""} IN
-  withdeps \cup UNION {IdentNeedsHere(k) \cup IdentNeedsThere(k) : k \in KindsPass}
-HoldersNeeded(f) ==
-  IF AllHolders THEN HolderNames
-  ELSE {HolderOf(p) : p \in PathsNeeded(f)} \cup {ProtoHolderOfKind(k) : k \in KindsPass}
+(* holders the alphabet of a history of family f with focus path p can reach *)
+PathsNeeded(f, p) ==
+  LET sl == {p, PathInfo[p].mate}
+      withdeps == (sl \cup UNION {PathInfo[q].deps : q \in sl} \cup {PathInfo[q].via : q \in sl}) \ {""} IN
+  withdeps \cup UNION {IdentNeedsHere(k) \cup IdentNeedsThere(k) : k \in f.kinds}
+HoldersNeeded(f, p) ==
+  IF f.allHolders THEN HolderNames
+  ELSE {HolderOf(q) : q \in PathsNeeded(f, p)} \cup {ProtoHolderOfKind(k) : k \in f.kinds}
 
 MCInit ==
-  /\ focus \in FocusSet
+  /\ fam \in Fams
+  /\ focus \in fam.focus
   /\ done = FALSE
   /\ ctxs = <<>> /\ realmCtx = <<>> /\ intr = <<>> /\ heap = <<>> /\ next = 1
   /\ inbox = <<>> /\ registry = {} /\ warm = {} /\ hist = <<>>
-  /\ active = HoldersNeeded(focus)
+  /\ active = HoldersNeeded(fam, focus)
 
-(* the fixed prefix: context 1 (realms 1, 2) and context 2 (realms 3, 4) *)
+(* the fixed prefix: context 1 (realms 1, 2) and context 2 (realms 3, 4); "lazy": only context 1 / realm 1 *)
 SetupStep ==
   /\ Len(hist) < SetupLen
   /\ CASE Len(hist) = 0 -> NewContext
@@ -56,41 +57,39 @@ SetupStep ==
        [] Len(hist) = 3 -> NewRealm(2)
 
 Step ==
-  /\ Len(hist) >= SetupLen /\ Steps < MaxSteps
-  /\ \/ /\ Count({"sab"}) < MaxSab
+  /\ Len(hist) >= SetupLen /\ Steps < fam.maxSteps
+  /\ \/ /\ Count({"sab"}) < fam.maxSab
         /\ \E r \in LiveRealms :
-             \/ \E how \in HowsFocus : HowOK(how, focus) /\ Sabotage(r, how, focus)
-             \/ Mate # focus /\ \E how \in HowsMate : HowOK(how, Mate) /\ Sabotage(r, how, Mate)
-     \/ /\ Count({"saball"}) < MaxSabAll
+             \/ \E how \in fam.howsFocus : HowOK(how, focus) /\ Sabotage(r, how, focus)
+             \/ Mate # focus /\ \E how \in fam.howsMate : HowOK(how, Mate) /\ Sabotage(r, how, Mate)
+     \/ /\ Count({"saball"}) < fam.maxSabAll
         /\ \E r \in LiveRealms : \E rot \in 0..1 : SabotageAll(r, rot)
-     \/ /\ Count({"pass", "forward"}) < MaxPass
-        /\ \/ \E from \in LiveRealms, to \in LiveRealms : \E k \in KindsPass :
+     \/ /\ Count({"pass", "forward"}) < fam.maxPass
+        /\ \/ \E from \in LiveRealms, to \in LiveRealms : \E k \in fam.kinds :
                 Pass(from, to, k, IF k = "fn" THEN focus ELSE "")
            \/ \E from \in LiveRealms, to \in LiveRealms : Forward(from, to)
-     \/ /\ Count({"eval"}) < MaxEval
+     \/ /\ Count({"eval"}) < fam.maxEval
         /\ \E r \in LiveRealms : Eval(r, Slice)
-     \/ /\ Count({"noise"}) < MaxNoise
+     \/ /\ Count({"noise"}) < fam.maxNoise
         /\ AllocNoise(3)
-     \/ /\ Count({"newctx", "newrealm", "dropctx"}) - SetupLen < MaxLife
+     \/ /\ Count({"newctx", "newrealm", "dropctx"}) - SetupLen < fam.maxLife
         /\ \/ NewContext
            \/ \E c \in DOMAIN ctxs : NewRealm(c)
            \/ \E c \in DOMAIN ctxs : Cardinality({x \in DOMAIN ctxs : ctxs[x] = "live"}) > 1 /\ DropContext(c)
 
 Finish ==
-  /\ Len(hist) >= SetupLen /\ Steps >= MinSteps /\ LiveRealms # {}
+  /\ Len(hist) >= SetupLen /\ Steps >= fam.minSteps /\ LiveRealms # {}
   /\ ObserveAll(Slice)
   /\ done' = TRUE
 
 MCNext ==
   /\ ~done
-  /\ \/ SetupStep /\ UNCHANGED <<focus, done>>
-     \/ Step /\ UNCHANGED <<focus, done>>
-     \/ Finish /\ UNCHANGED focus
+  /\ \/ SetupStep /\ UNCHANGED <<focus, fam, done>>
+     \/ Step /\ UNCHANGED <<focus, fam, done>>
+     \/ Finish /\ UNCHANGED <<focus, fam>>
 
 MCSpec == MCInit /\ [][MCNext]_mcvars
 
-EmitInv == (done /\ Emit) => PrintT(<<"HIST", ToJson([focus |-> focus, mate |-> Mate, steps |-> hist])>>)
-
-(* counters for the vacuity guard of the driver: histories in which a sabotage in one realm precedes an         *)
-(* observation in ANOTHER realm that reaches the same path *)
+EmitInv == (done /\ Emit) =>
+  PrintT(<<"HIST", ToJson([fam |-> fam.name, focus |-> focus, mate |-> Mate, steps |-> hist])>>)
 =============================================================================
